@@ -1671,6 +1671,9 @@ fn plan_texts(ctx: &mut Ctx, words: &[String], n: usize, plan: &mut Plan) {
             continue;
         }
         let (text, tag): (String, &str) = match kind {
+            // the rare shapes of the structured-program generator (a local whose `local` was skipped, names that change
+            // their meaning, definitions inside definitions, recursion): what must be an error value there must not panic
+            15..=16 => (crate::progen::shape(&mut r), "rare-shape"),
             0..=19 => (gen_soup(&mut r, &soup_words), "soup"),
             20..=24 => {
                 let k = r.below(3);
